@@ -44,7 +44,9 @@
 // Oracle (independent of the Lean model; plain maps and the recorded
 // uncrashed run): for every crash point the recovered version must be the
 // previous or the new version of every commit the point can lie in, hash and
-// contents must be exactly that version's, the user keys must equal a shadow
+// contents must be exactly that version's (contents = the iteration of every
+// store, cross-checked with point reads of every key the script ever named:
+// point reads go through the fast index), the user keys must equal a shadow
 // map computed from the script alone, and the continuation must not diverge.
 package main
 
@@ -387,17 +389,61 @@ func showVal(storeName string, k, v []byte) string {
 	return hex.EncodeToString(v)
 }
 
+// everKeys: every key the script of the current case ever named, per store
+// ("m", "a", "b") -> set of raw keys.  Point reads of all of them are checked
+// against the iteration in dumpStore.
+var everKeys = map[string]map[string]bool{}
+
+func noteKeys(steps []Step) {
+	for _, s := range steps {
+		n := string(s.Store)
+		if everKeys[n] == nil {
+			everKeys[n] = map[string]bool{}
+		}
+		everKeys[n][string(s.Key)] = true
+	}
+}
+
+// dumpStore lists the store by ITERATION and cross-checks it with POINT reads
+// (Get / Has) of every listed key and of every key the script ever named: on a
+// clean tree point reads are served by the bptree fast index, iteration by the
+// tree itself, so an index left stale by a crash shows up as a `!get:` marker
+// (which makes the contents differ from every uncrashed dump).
 func dumpStore(app *sdk.BaseApp, name string, key store.StoreKey) string {
 	ms := app.GetCacheMultiStore()
 	st := ms.GetStore(key)
 	it := st.Iterator(nil, nil, nil)
-	defer it.Close()
 	var parts []string
+	listed := map[string]string{}
 	for ; it.Valid(); it.Next() {
 		if name == "b" && len(it.Key()) > 0 && isTreePrefix(it.Key()[0]) {
 			continue // shared wiring: the main tree's records live in the same key space
 		}
+		listed[string(it.Key())] = string(it.Value())
 		parts = append(parts, hex.EncodeToString(it.Key())+"="+showVal(name, it.Key(), it.Value()))
+	}
+	it.Close()
+	probe := map[string]bool{}
+	for k := range listed {
+		probe[k] = true
+	}
+	for k := range everKeys[name] {
+		probe[k] = true
+	}
+	var bad []string
+	for k := range probe {
+		// a fresh cache wrap per key: the read must reach the store itself
+		pst := app.GetCacheMultiStore().GetStore(key)
+		got := pst.Get(nil, []byte(k))
+		has := pst.Has(nil, []byte(k))
+		want, ok := listed[k]
+		if ok != (got != nil) || ok != has || (ok && string(got) != want) {
+			bad = append(bad, hex.EncodeToString([]byte(k)))
+		}
+	}
+	sort.Strings(bad)
+	for _, b := range bad {
+		parts = append(parts, "!get:"+b)
 	}
 	return "[" + strings.Join(parts, ",") + "]"
 }
@@ -467,8 +513,12 @@ type World struct {
 	wAfter  []int // ... when it returned
 	// shadow: contents of the user keys after each block, computed from the script alone
 	shadow []map[string]string // key = "<store>/<keyhex>"
-	cur    map[string]string
-	dirs   []string
+	// shadowOK[i]: the uncrashed run itself showed shadow[i] after block i.  If it
+	// did not (that would be a transaction-atomicity matter, C02, not C27), the
+	// shadow is not used to judge crash copies of that version.
+	shadowOK []bool
+	cur      map[string]string
+	dirs     []string
 }
 
 var w *World
@@ -478,6 +528,7 @@ func reset() {
 		w.cleanup()
 	}
 	w = &World{cur: map[string]string{}}
+	everKeys = map[string]map[string]bool{}
 }
 
 func (w *World) cleanup() {
@@ -576,6 +627,10 @@ func userKeys(d dump) map[string]string {
 		}
 		for _, kv := range strings.Split(body, ",") {
 			i := strings.IndexByte(kv, '=')
+			if i < 0 { // a `!get:` marker of dumpStore: never equal to a shadow
+				out[p.n+"/"+kv] = "!"
+				continue
+			}
 			kb, _ := hex.DecodeString(kv[:i])
 			if (p.n == "m" && string(kb) == "consensus_params") || (p.n == "b" && string(kb) == "last_header") {
 				continue
@@ -846,12 +901,14 @@ func (w *World) verdict(k int, r recovered) string {
 		return fmt.Sprintf("VIOL:torn-contents k=%d version %d contents %s", k, r.ver, compact(r.d.contents()))
 	}
 	var want map[string]string
+	useShadow := true
 	if i == -1 {
 		want = map[string]string{}
 	} else {
 		want = w.shadow[i]
+		useShadow = w.shadowOK[i]
 	}
-	if !sameMap(userKeys(r.d), want) {
+	if useShadow && !sameMap(userKeys(r.d), want) {
 		return fmt.Sprintf("VIOL:torn-contents k=%d version %d user keys differ from the script's effect", k, r.ver)
 	}
 	if !r.cont {
@@ -942,6 +999,7 @@ func exec(t []string) (string, string) {
 		}
 		w.genesis = steps
 		w.inited = true
+		noteKeys(steps)
 		// the InitChainer closure of the live app reads w.genesis through newApp's
 		// argument; rebuild the app so that it sees the steps (nothing was written yet).
 		w.app.Close()
@@ -973,6 +1031,9 @@ func exec(t []string) (string, string) {
 			return "err:state", "-"
 		}
 		idx := len(w.blocks)
+		for _, tx := range txs {
+			noteKeys(tx.Steps)
+		}
 		hash, ver, w0, w1, w2 := runBlock(w.app, w.cfg, w.db, idx, txs)
 		w.blocks = append(w.blocks, txs)
 		w.vers = append(w.vers, ver)
@@ -1000,12 +1061,11 @@ func exec(t []string) (string, string) {
 			}
 		}
 		out := fmt.Sprintf("v=%d w=%d wc=%d wk=%s %s", ver, w1-w0, w2-w1, kinds, w.census(w.db.units[w1:w2]))
-		// oracle: the uncrashed run itself must show the script's effect
-		orc := "ok"
-		if !sameMap(userKeys(w.dumps[idx]), w.shadow[idx]) {
-			orc = fmt.Sprintf("VIOL:uncrashed-contents block %d user keys differ from the script's effect", idx)
-		}
-		return compact(out), orc
+		// no verdict on a block by itself: C27 speaks about crash points.  Whether
+		// the uncrashed run shows the script's effect only decides if the shadow
+		// map may be used to judge the crash copies of this version.
+		w.shadowOK = append(w.shadowOK, sameMap(userKeys(w.dumps[idx]), w.shadow[idx]))
+		return compact(out), "-"
 	case "rec":
 		if len(t) != 2 {
 			return "err:badop", "-"
